@@ -110,25 +110,25 @@ client's (no server part at all — RFC 5802 §7 requires a non-empty `s-nonce`)
 `startsWith`, not "properly extends".  (The client nonce alone already protects the client against replay; the
 property's refusal clause is read as "does not have the client nonce as a prefix".) -/
 theorem scram_accepts_unextended_nonce (C : Crypto) (cr : Cred) (s : ScramSt) (sf : Bytes) (hstep : s.step = 1)
+    (hm : gs2Has (parseGS2 sf) 109 = false)
     (hn : gs2Get (parseGS2 sf) 114 = cr.cnonce)
     (hs : Base64.decodeLenient (gs2Get (parseGS2 sf) 115) ≠ [])
     (hi : 1 ≤ toInt (gs2Get (parseGS2 sf) 105)) :
     (scramStep C cr s sf).2.isSome = true := by
   have hp : cr.cnonce.isPrefixOf (gs2Get (parseGS2 sf) 114) = true := by
     rw [hn]; have := isPrefixOf_append cr.cnonce []; rwa [List.append_nil] at this
-  rw [scram_step1_ok C cr s sf hstep hp hs hi]
+  rw [scram_step1_ok C cr s sf hstep hm hp hs hi]
   rfl
 
-/-- **Today's code ignores the reserved attribute `m=`** (RFC 5802 §5.1: "its presence in a client or a server message
-MUST cause authentication failure"): the server-first message `m=e,r=xy,s=QQ==,i=1` is answered.  Low severity. -/
-theorem C06_defect_scram_reserved_m_accepted :
-    ¬ ∀ (C : Crypto) (cr : Cred) (s : ScramSt) (sf : Bytes), s.step = 1 → (∃ p ∈ parseGS2 sf, p.1 = 109) →
-        scramStep C cr s sf = (s, none) := by
-  intro h
-  have := h toyCrypto toyCred (scramSt1 toyCred) [109, 61, 101, 44, 114, 61, 120, 121, 44, 115, 61, 81, 81, 61, 61, 44, 105, 61, 49] rfl
-    (by decide)
-  revert this
-  decide
+/-- **The reserved attribute `m=` causes failure** (RFC 5802 §5.1: "its presence in a client or a server message MUST
+cause authentication failure"; repo commit ff6a7ed): a server-first message containing it is refused with the
+step kept, a server-final message containing it is refused even when it carries the right signature — no
+response, not verified. (Witness of the former finding, `m=e,r=xy,s=QQ==,i=1`, in the examples below.) -/
+theorem scram_rejects_reserved_m (C : Crypto) (cr : Cred) (s : ScramSt) (msg : Bytes)
+    (hm : gs2Has (parseGS2 msg) 109 = true) :
+    (s.step = 1 → scramStep C cr s msg = (s, none))
+    ∧ (s.step = 2 → (scramStep C cr s msg).2 = none ∧ (scramStep C cr s msg).1.verified = s.verified) := by
+  constructor <;> intro hstep <;> simp [scramStep, hstep, hm]
 
 /-- **Invalid parameters are refused** (as coded): a salt that decodes to nothing, or an iteration count whose
 `toInt` value is below 1. -/
@@ -181,7 +181,13 @@ theorem scram_verified_only_by_comparison (C : Crypto) (cr : Cred) (s : ScramSt)
     · by_cases h2 : s.step = 2
       · by_cases heq : Base64.decodeLenient (gs2Get (parseGS2 ch) 118) = s.serverSig
         · right; exact ⟨h2, heq⟩
-        · left; simpa [scramStep, h2, heq] using h
+        · left
+          have hc : (!gs2Has (parseGS2 ch) 109 && decide (Base64.decodeLenient (gs2Get (parseGS2 ch) 118) = s.serverSig)) = false := by
+            simp [heq]
+          unfold scramStep at h
+          rw [if_neg h0, if_neg h1, if_pos h2] at h
+          simp only [hc] at h
+          simpa using h
       · left; simpa [scramStep, h0, h1, h2] using h
 
 /-! ## DIGEST-MD5 -/
@@ -421,22 +427,49 @@ theorem success_data_is_verified (C : Crypto) (md5 : Bytes → Bytes) (cr : Cred
     cases hs2 : st.sasl2 <;>
       simp [mgrStep, hp, hm, mechVerified, hv, hs2, mechRespond, h2]
 
-/- Full statement for DIGEST-MD5 (FALSE on today's code): for every server script, result = success and mechanism
-   DIGEST-MD5 → `serverProofSeen` (the client reached step 3, i.e. `digest_rspauth_checked` accepted `rspauth`). -/
-
-/-- **Today's managers report a DIGEST-MD5 login as successful although the server never presented `rspauth`**
-(RFC 2831 §2.1.3; both managers): `QXmppSaslClientDigestMd5` keeps the default `serverVerified() = true`, so after the
-digest-response a bare `<success/>` — or one carrying a wrong `rspauth` — finishes with success while the client is
-still in step 2.  Witness: challenge `nonce="abc",qop="auth"`, then `<success/>`. -/
-theorem C06_defect_digest_success_without_rspauth (sasl2 : Bool) :
-    ¬ ∀ (C : Crypto) (md5 : Bytes → Bytes) (cr : Cred) (els : List El),
-        (mgrRun C md5 cr (mgrStart C md5 cr sasl2 .digest).1 els).1.result = some .success →
-        serverProofSeen (mgrRun C md5 cr (mgrStart C md5 cr sasl2 .digest).1 els).1.mech = true := by
+/-- **A DIGEST-MD5 login is reported successful only after a correct `rspauth`** — for every credential, both managers
+and EVERY server script: result = success ⇒ the client is beyond step 2 (`serverVerified()`, repo commit 8012ab0).
+What "beyond step 2" means is `digest_verified_only_by_rspauth`: the only way there is a `respond` call — made for a
+`<challenge/>` or for the data of a `<success/>` — whose `rspauth` equals the RFC 2831 §2.1.3 value.
+(Before 8012ab0 this was false: witness `[<challenge nonce="abc",qop="auth"/>, <success/>]`, kept in the corpus.) -/
+theorem digest_success_only_after_rspauth (C : Crypto) (md5 : Bytes → Bytes) (cr : Cred) (sasl2 : Bool) (els : List El) :
+    (mgrRun C md5 cr (mgrStart C md5 cr sasl2 .digest).1 els).1.result = some .success →
+    ∃ s, (mgrRun C md5 cr (mgrStart C md5 cr sasl2 .digest).1 els).1.mech = .digest s ∧ 2 < s.step := by
   intro h
-  have := h toyCrypto id toyCred
-    [.challenge [110, 111, 110, 99, 101, 61, 34, 97, 98, 99, 34, 44, 113, 111, 112, 61, 34, 97, 117, 116, 104, 34], .success none]
-  revert this
-  cases sasl2 <;> decide
+  have hv : mechVerified (mgrRun C md5 cr (mgrStart C md5 cr sasl2 .digest).1 els).1.mech = true :=
+    success_implies_mechanism_verified C md5 cr sasl2 .digest els h
+  have hk := mgr_mech_kind C md5 cr sasl2 .digest els
+  revert hv hk
+  generalize (mgrRun C md5 cr (mgrStart C md5 cr sasl2 .digest).1 els).1.mech = m
+  intro hv hk
+  cases m with
+  | digest s => exact ⟨s, rfl, by simpa [mechVerified] using hv⟩
+  | scram _ => simp [mechKindOf] at hk
+  | plain _ => simp [mechKindOf] at hk
+  | ht _ => simp [mechKindOf] at hk
+
+/-- **The DIGEST-MD5 client gets beyond step 2 only through a correct `rspauth`**: one `respond` call leads from a
+step ≤ 2 to a step > 2 only in step 2 with `rspauth` equal to the RFC value computed from the stored secret. -/
+theorem digest_verified_only_by_rspauth (md5 : Bytes → Bytes) (cr : Cred) (s : DigestSt) (ch : Bytes)
+    (h : 2 < (digestStep md5 cr s ch).1.step) :
+    2 < s.step ∨ (s.step = 2 ∧
+      mapGet (parseMessage ch) kRspauth = calculateDigest md5 [] (digestUriOf cr) s.secret s.nonce cr.cnonce sNc1) := by
+  by_cases h0 : s.step = 0
+  · simp [digestStep, h0] at h
+  · by_cases h1 : s.step = 1
+    · unfold digestStep at h
+      rw [if_neg h0, if_pos h1] at h
+      dsimp only at h
+      split at h
+      · simp [h1] at h
+      · split at h <;> simp [h1] at h
+    · by_cases h2 : s.step = 2
+      · by_cases heq : mapGet (parseMessage ch) kRspauth = calculateDigest md5 [] (digestUriOf cr) s.secret s.nonce cr.cnonce sNc1
+        · right; exact ⟨h2, heq⟩
+        · simp [digestStep, h2, heq] at h
+      · left
+        simp [digestStep, h0, h1, h2] at h
+        exact h
 
 /-- **A refused challenge ends the attempt with an error, never with success**: whatever the mechanism, when
 `respond` returns nothing the task is finished with "Could not respond to SASL challenge" and later elements
@@ -518,6 +551,18 @@ example : serverSignatureVerified (mgrRun toyCrypto id toyCred (mgrStart toyCryp
 example : (mgrRun toyCrypto id toyCred (mgrStart toyCrypto id toyCred false .scram).1 [.success none]).1.result = some .notProved
     ∧ (mgrRun toyCrypto id toyCred (mgrStart toyCrypto id toyCred true .scram).1 [.success none]).1.result = some .notProved := by
   decide
+
+/-- former finding witnesses: DIGEST-MD5 `<challenge nonce="abc",qop="auth"/>` then a bare `<success/>` is refused by
+both managers; the SCRAM server-first message `m=e,r=xy,s=QQ==,i=1` carries the reserved attribute and is refused -/
+example : (mgrRun toyCrypto id toyCred (mgrStart toyCrypto id toyCred false .digest).1
+      [.challenge [110, 111, 110, 99, 101, 61, 34, 97, 98, 99, 34, 44, 113, 111, 112, 61, 34, 97, 117, 116, 104, 34], .success none]).1.result
+      = some .notProved
+    ∧ (mgrRun toyCrypto id toyCred (mgrStart toyCrypto id toyCred true .digest).1
+      [.challenge [110, 111, 110, 99, 101, 61, 34, 97, 98, 99, 34, 44, 113, 111, 112, 61, 34, 97, 117, 116, 104, 34], .success none]).1.result
+      = some .notProved := by decide
+example : gs2Has (parseGS2 [109, 61, 101, 44, 114, 61, 120, 121, 44, 115, 61, 81, 81, 61, 61, 44, 105, 61, 49]) 109 = true
+    ∧ scramStep toyCrypto toyCred (scramSt1 toyCred) [109, 61, 101, 44, 114, 61, 120, 121, 44, 115, 61, 81, 81, 61, 61, 44, 105, 61, 49]
+      = (scramSt1 toyCred, none) := by decide
 
 /-- the server-final message delivered as success data after one challenge is accepted and verified -/
 example : (mgrRun toyCrypto id toyCred (mgrStart toyCrypto id toyCred true .scram).1
